@@ -248,6 +248,8 @@ class FeatNormalizerList:
             normalizers (list[FeatNormalizer or None]):
             list of feature normalizers
         """
+        if slmode not in ["npa", "nst", "np", "ns"]:
+            raise ValueError("slmode must be npa, nst, np, or ns")
         self.slmode = slmode
         self._normalizers = normalizers
         self.cutoff = cutoff
